@@ -193,7 +193,21 @@ def check_props_file(prop, timeout=900):
 # --------------------------------------------------------------------------
 # Rust side
 # --------------------------------------------------------------------------
+def _point_harness_at_repo():
+    """HT_REPO=<dir> (used only for background sweeps on a snapshot of /repo) rewrites the path dependencies of the
+    harness manifest; by default they point at /repo itself."""
+    repo = os.environ.get("HT_REPO")
+    if not repo:
+        return
+    mf = os.path.join(HARNESS_DIR, "Cargo.toml")
+    src = open(mf).read()
+    new = re.sub(r'path = "[^"]*/(packages|contracts)/', lambda m: 'path = "%s/%s/' % (repo.rstrip("/"), m.group(1)), src)
+    if new != src:
+        open(mf, "w").write(new)
+
+
 def build_harness(timeout=1500):
+    _point_harness_at_repo()
     with Lock("cargo.lock"):
         lock_src = "/repo/Cargo.lock"
         lock_dst = os.path.join(HARNESS_DIR, "Cargo.lock")
